@@ -115,6 +115,9 @@ fn classify_kind(plan: &Plan, v: &Violation) -> String {
     if v.element == "unseamed-nondeterminism" {
         return "unseamed_nondeterminism".into();
     }
+    if plan.engine == "free" {
+        return "uncontrolled_concurrency".into();
+    }
     if v.element == "deadlock" || v.element == "step-cap" || v.actual.class == "noreturn" {
         return "deadlock_or_no_return".into();
     }
@@ -169,7 +172,11 @@ fn cmd_replay(path: &str) -> i32 {
     let mut refs = RefTable::default();
     let mut plan = rf.plan.clone();
     plan.keep_log = true;
-    let tries = if rf.kind == "unseamed_nondeterminism" { 50 } else { 1 };
+    let tries = if rf.kind == "unseamed_nondeterminism" || rf.kind == "uncontrolled_concurrency" || rf.plan.engine == "free" {
+        50
+    } else {
+        1
+    };
     for _ in 0..tries {
         match check::run_and_check(&plan, &mut refs) {
             Ok((out, res)) => {
@@ -686,11 +693,16 @@ fn cmd_run(args: &[String]) -> i32 {
             notes: vec![format!("cluster of {} executions with this signature", members.len())],
         };
         std::fs::write(&raw_path, serde_json::to_string_pretty(&rf).unwrap()).expect("write replay");
-        let st = Command::new(&exe)
-            .arg("minimize")
-            .arg(&raw_path)
-            .arg(&min_path)
-            .status();
+        // a finding of the free-running fallback is not minimised: it does not replay exactly
+        let st = if plan.engine == "free" {
+            Err(std::io::Error::other("not minimised"))
+        } else {
+            Command::new(&exe)
+                .arg("minimize")
+                .arg(&raw_path)
+                .arg(&min_path)
+                .status()
+        };
         let mut final_path = None;
         if matches!(st, Ok(s) if s.success()) {
             let out = Command::new(&exe).arg("replay").arg(&min_path).output();
